@@ -469,7 +469,12 @@ func (E *Engine) applySpec(st *State, in ssa.Instruction, spec *FuncSpec, callee
 			continue
 		}
 		ev := &cenv{E: E, st: st, vars: rvars, heap: st.heap, oldHeap: pre, oldVars: vars, oldAlloc: preAlloc, ctx: cl.Ctx, fc: E.cur}
-		st.assume(ev.evalBool(cl.Expr))
+		if f, ok := ev.tryEvalBool(cl.Expr); ok {
+			st.assume(f)
+		} else {
+			// the clause speaks about locals of the callee: internal, not visible to callers
+			E.note("postcondition of %s not usable at call sites (mentions callee locals): %s", label, cl.Text)
+		}
 	}
 	// call log
 	ev := CallEvent{Label: label, Args: args, Heap: pre}
@@ -699,13 +704,14 @@ func (E *Engine) doReturn(st *State, in *ssa.Return) {
 	if E.dry > 0 {
 		return
 	}
+	E.markLabels(st)
 	var rs []*Val
 	for _, r := range in.Results {
 		rs = append(rs, E.val(st, r))
 	}
 	c.paths++
 	c.returns++
-	if c.relRun == 0 && c.returns <= 3 {
+	if c.relRun == 0 && c.returns <= 12 {
 		E.cover(st, fmt.Sprintf("return%d", c.returns), "this return is reachable under the contract's assumptions", E.pos(in))
 	}
 	if c.relRun > 0 {
